@@ -88,7 +88,47 @@ fn rd_bads(r: &mut Rd) -> Result<Vec<(u64, u64, u64)>, String> {
     r.list(|r| Ok((r.nat()?, r.nat()?, r.nat()?)))
 }
 
+/// `lossylines`: the line reader of the sources on one file given as its bytes: the number of lines `count_lines`
+/// declares (through the generator's `len()`), then the byte content of every line the reader yields
+fn exec_lossylines(a: &[u64]) -> Result<Outcome, String> {
+    use text_utils::data::loading::LossyUtf8Reader;
+    let mut r = Rd::new(a);
+    let bytes = r.bytes()?;
+    r.end()?;
+    if std::str::from_utf8(&bytes).is_err() {
+        return Err("file is not UTF-8 (the lossy decoding is not modelled)".into());
+    }
+    if !bytes.is_empty() && std::str::from_utf8(&bytes[..bytes.len() - 1]).is_err() {
+        return Err("the file ends inside... its last character has several bytes and no line feed follows: the reader drops the last byte, what remains is decoded lossily (not modelled)".into());
+    }
+    let path = format!("{}/lines-{}.jsonl", tmp(), std::process::id());
+    std::fs::write(&path, &bytes).map_err(|e| e.to_string())?;
+    let f = std::fs::File::open(&path).map_err(|e| e.to_string())?;
+    let lines: Vec<String> = LossyUtf8Reader::new(std::io::BufReader::new(f)).lines().collect::<Result<_, _>>().map_err(|e| e.to_string())?;
+    let g = train_data_generator_from_jsonl(&path).map_err(|e| e.to_string())?;
+    let declared = g.len();
+    let yielded = g.count();
+    let mut v = vec![declared as u64, lines.len() as u64];
+    for l in &lines {
+        enc_bytes(&mut v, l.as_bytes());
+    }
+    let mut o = Outcome::new(ok(v));
+    // C07 speaks of "each item of each source": the declared length of a source is the number of items it yields
+    o.check(declared == yielded && yielded == lines.len(), "the declared length of a file source is not the number of items it yields");
+    o.check(lines.iter().all(|l| !l.contains('\n')), "a yielded line contains a line feed");
+    // every byte of the file is in a line or is a line terminator (\n, \r\n) -- except that the reader drops the last
+    // byte of a file without a final line feed (stated as the theorem lossyLines_unterminated; outside C07)
+    if bytes.is_empty() || bytes.last() == Some(&b'\n') {
+        let want: Vec<&str> = std::str::from_utf8(&bytes).unwrap().split_terminator('\n').map(|l| l.strip_suffix('\r').unwrap_or(l)).collect();
+        o.check(lines.iter().map(|x| x.as_str()).collect::<Vec<_>>() == want, "the lines of a file that ends with a line feed are not its lines without their terminators");
+    }
+    Ok(o)
+}
+
 pub fn exec(op: &str, a: &[u64]) -> Result<Outcome, String> {
+    if op == "lossylines" {
+        return exec_lossylines(a);
+    }
     let mut r = Rd::new(a);
     // mgdetb / mgwb: the same with runs of unparseable lines (Err items) in the sources
     let (s, lens, seed, tags_req, bads) = match op {
@@ -271,6 +311,28 @@ pub fn run_c07(ctx: &mut Ctx) {
         } else {
             emit(ctx, s, &lens, seed);
         }
+    }
+    // the line reader itself: files as byte strings with every mix of line feeds, carriage returns, empty lines,
+    // with and without a final line feed
+    let nl = ctx.budget(300, 20000);
+    for _ in 0..nl {
+        let mut b: Vec<u8> = vec![];
+        for _ in 0..ctx.rng.random_range(0..=10) {
+            match ctx.rng.random_range(0..10) {
+                0 | 1 | 2 => b.push(b'\n'),
+                3 => b.push(b'\r'),
+                4 => b.extend(b"\r\n"),
+                5 => b.extend("\u{e4}".as_bytes()),
+                6 => b.extend(b"{\"input\": \"x\"}"),
+                _ => b.push(b'a' + ctx.rng.random_range(0..3u8)),
+            }
+        }
+        if b.last().map(|x| *x >= 0x80).unwrap_or(false) {
+            b.push(b'c');
+        }
+        let mut v = vec![];
+        enc_bytes(&mut v, &b);
+        ctx.case("lossylines", &v);
     }
     std::fs::remove_dir_all(tmp()).ok();
 }
